@@ -174,6 +174,8 @@ def c05_cfgs(tier):
     out += [cfg('c04', 1, n=4, ringf=3, ringx=8, w=3, h=2, type=t, exposure=4, reshape_at=k, reshape_mode=m, reshape_w=2, reshape_h=3) for t in (0, 1) for k in (1, 2) for m in (0, 1)]
     out += [cfg('c04', 1, n=4, ringf=3, ringx=8, w=5, h=3, type=0, exposure=4, reshape_at=2, reshape_mode=1, reshape_w=3, reshape_h=3, client=1),
             cfg('c04', 1, n=4, ringf=3, ringx=8, w=3, h=3, type=0, exposure=4, reshape_at=2, reshape_mode=0, reshape_w=7, reshape_h=3, client=3)]
+    # the camera's frame call fails mid-acquisition: whatever the error path leaves in the ring, storage and client only ever see whole frames
+    out += [cfg('c09', 'D1', camfail=k, end_abort=e, ringf=2, ringx=8, exposure=4, n=3, client_polls=c) for k in (0, 1, 2) for e in (0, 1) for c in (0, 1) if e == 1 or c == 0]   # (a client that has joined as a reader and then waits in stop without draining is the known finding c06u: not legal use)
     # averaging switched on/off by a re-configuration during the acquisition (source and filter both write the sink ring)
     out += [cfg('c08', 'D2', prog=p) for p in ('FswAS', 'FswAwS', 'AswFwS', 'FsAS')] + [cfg('c08', 1, prog='FswAS')]
     out += [cfg('c04', 1, n=4, ringf=3, ringx=8, w=5, h=1, type=0, exposure=4, client=3),
@@ -273,6 +275,8 @@ def c10_cfgs(tier):
     q = [cfg('c10', 1, avg=2, n=n, **base) for n in (2, 3, 4)]
     q += [cfg('c10', 1, avg=2, n=4, **{**base, 'ringf': 3, 'fringf': 3}), cfg('c10', 'D2', avg=3, n=6, **{**base, 'fringf': 3})]   # the input ring wraps between the filter's last poll and the stop signal
     q += [cfg('c10', 0, avg=2, n=5, type=t, **base) for t in (0, 1, 2, 3, 5, 6, 7)]
+    # the source's last frame (and its stop signal) arrive exactly when the filter polls: exposure 5 or 10 ms against the filter's 10 ms period
+    q += [cfg('c10', b, avg=2, n=n, **{**base, 'exposure': e}) for (e, n) in ((5, 4), (10, 2), (5, 2), (10, 4)) for b in (1, 'D2')] + [cfg('c10', 2, avg=2, n=2, **{**base, 'exposure': 10})]
     q += [cfg('c10', 1, avg=2, n=4, **{**base, 'exposure': 0, 'fringf': 1}),   # camera without exposure wait: the source outruns the filter thread
           cfg('c10', 0, avg=3, n=7, w=2, h=2, **base), cfg('c10', 0, avg=2, n=6, **{**base, 'prefill': 0}), cfg('c10', 0, avg=2, n=4, client=1, **base)]
     if tier == 'quick':
